@@ -31,6 +31,7 @@ func TestVerif_C13_ZA(t *testing.T) {
 	rec.Rule("rapid: id length from {0,1,16,31,32,53..56,62..64,117..120 (SM3 padding edges of the 2+len+192-byte preimage), 8190,8191,8192,8193,10000,70000} or uniform 0..300 or uniform 0..8300; public key of a generated private key. Oracle: ZA = sm3ref(ENTL||id||a||b||Gx||Gy||xA||yA) with constants from GM/T 0003.5 written out in the harness; len(id) >= 8192 -> error and nil; inputs unmodified. Non-trivial: id length >= 8190 or (2+len+192) mod 64 in 55..64 or 0; distinct by (id,key).")
 	t.Cleanup(stats.FlushAll)
 	rapid.Check(t, func(t *rapid.T) {
+		foreignCalls(t, rec, "foreign") // state left behind by other entry points must not matter
 		r := gen.Rand(t, "seed")
 		var n int
 		switch gen.Pick(t, "idlenClass", "listed", "listed", "short", "any") {
@@ -101,6 +102,7 @@ func TestVerif_C13_Wrappers(t *testing.T) {
 	rec.Rule("rapid: key, id (lengths as above, < 8192 mostly), message of 0..200 bytes (all residues mod 64), a deterministic nonce stream. The arguments of Sign / Verify / ZA are passed as sub-slices of ONE record buffer in a drawn order (capacity extending over the following fields, as when a wire record is parsed in place). Oracle: the record is byte-identical afterwards; Sign(id,..,msg) and SignZa(za,msg) return exactly SignHashed(identical stream, d, e) for e = sm3ref(ZA||msg) computed by the reference; Verify/VerifyZa return what VerifyHashed returns on e (for the true signature and for one with a changed id / message); Sign/Verify with an over-long id return an error. Non-trivial: (32+len(msg)) mod 64 in 55..64 or 0, or id length >= 8190, or a mutated id/message; distinct by (id,msg,key,stream).")
 	t.Cleanup(stats.FlushAll)
 	rapid.Check(t, func(t *rapid.T) {
+		foreignCalls(t, rec, "foreign") // state left behind by other entry points must not matter
 		r := gen.Rand(t, "seed")
 		var n int
 		if gen.Int(t, "listed", 0, 3) == 0 {
@@ -135,6 +137,7 @@ func TestVerif_C13_Wrappers(t *testing.T) {
 			return
 		}
 		e := sm2ref.E(za, msg)
+		resplit(t, rec, "resplit", id, px, py)
 		var r0, s0, r1, s1, r2, s2 []byte
 		var e0, e1, e2 error
 		if p := vt.Catch(func() {
